@@ -1053,7 +1053,38 @@ def own_wbcomplete(ctx: Ctx) -> RuleResult:
     return r
 
 
+def own_liveresults(ctx: Ctx) -> RuleResult:
+    """Before it runs, an executor reads the DAG's results LIVE: it never stores a reference to them.
+
+    DAG.setup() (and any executor's setup()) re-binds dag.results to a new mapping: a reference taken earlier keeps the old one,
+    without the setup results - the executor then runs the setup nodes a second time."""
+    r = RuleResult("OWN-LIVERESULTS")
+    rebinds = _setup_rebinds(ctx)
+    r.ob(True, {"statements that re-bind a DAG's results": len(rebinds)})
+    if not rebinds:
+        return r
+    base = ctx.P.classes.get(ctx.cls_q("BaseDAGExecution"))
+    r.require(base is not None, "executor base class not found")
+    n_live = 0
+    for ci in ctx.P.subclasses(base.qualname):
+        for mth in ci.methods.values():
+            for n in iter_own_nodes(mth.node):
+                if isinstance(n, ast.Assign) and norm_src(n.value) == "self.dag.results" \
+                        and any(isinstance(t, ast.Attribute) and dotted(t.value) == "self" for t in n.targets):
+                    r.ob(False, {"in": mth.short, "stores": norm_src(n)})
+                    r.violate(f"{mth.short}: the executor stores a reference to the DAG's results ({norm_src(n)})", mth.loc(n),
+                              "dag.setup() re-binds dag.results to a new mapping; the executor created before keeps the old one and executes "
+                              "the already set-up setup nodes again (silently)", norm_src(n))
+                if isinstance(n, ast.Return) and n.value is not None and norm_src(n.value) == "self.dag.results":
+                    n_live += 1
+    r.ob(n_live >= 1, {"live reads of the DAG's results in the executors": n_live})
+    if n_live == 0 and not r.findings:
+        raise Undecided("executors: no live read of self.dag.results found (form not modelled)")
+    return r
+
+
 RULES = {
+    "OWN-LIVERESULTS": own_liveresults,
     "OWN-WBCOMPLETE": own_wbcomplete,
     "OWN-RUN": own_run, "OWN-WRITEBACK": own_writeback, "OWN-SETUP": own_setup, "OWN-CONSUME": own_consume, "OWN-ARGS": own_args,
     "OWN-GLOBAL": own_global, "OWN-STRICT": own_strict, "OWN-FORCE": own_force, "OWN-COMPOSE": own_compose,
